@@ -5,7 +5,9 @@
 (* gmres_cycle {steps, converged, err, thr} per cycle and gmres_end        *)
 (* {cycles, converged}.  A recorded call is accepted iff it is a behaviour *)
 (* of the automaton of spec/Krylov.tla (StepBound, FlagOK, ExitOK).        *)
-(* err / thr are logarithmic integers (floor(1024 log2 x)).                *)
+(* err / thr are logarithmic integers (floor(1024 log2 x)).  A BiCGSTAB    *)
+(* call is a trace with alg = "bicgstab" and a single event {nit, relres,  *)
+(* eps}.                                                                   *)
 (***************************************************************************)
 EXTENDS Krylov, Json, IOUtils
 Traces == JsonDeserialize(IOEnv.TRACE_FILE).traces
@@ -17,9 +19,11 @@ T == Traces[tid]
 KSLACK == 16
 KZERO == -1073741824
 Init == tid \in 1..NT /\ l = 1
+IsBi == "alg" \in DOMAIN T /\ T.alg = "bicgstab"
 Next ==
     /\ l <= Len(T.ev)
-    /\ LET e == T.ev[l] IN
+    /\ IF IsBi THEN LET e == T.ev[l] IN l = 1 /\ BiOK(e.nit, T.nmax, e.relres_L, e.eps_L, KSLACK) ELSE
+       LET e == T.ev[l] IN
        /\ l <= T.resets                                                        \* at most `resets` cycles
        /\ CycleOK(e.steps, e.converged, T.N, T.maxit)                          \* StepBound, budget used up
        /\ (e.converged /\ e.steps > 0 => e.err_L = KZERO \/ e.err_L <= e.thr_L + KSLACK)   \* FlagOK
@@ -29,9 +33,10 @@ Next ==
     /\ UNCHANGED tid
 Finish ==
     /\ l = Len(T.ev) + 1
-    /\ T.end.cycles = Len(T.ev)
-    /\ Len(T.ev) >= 1 => T.end.converged = T.ev[Len(T.ev)].converged
-    /\ (~T.end.converged => Len(T.ev) = T.resets)                              \* ExitOK
+    /\ IF IsBi THEN Len(T.ev) = 1
+       ELSE /\ T.end.cycles = Len(T.ev)
+            /\ (Len(T.ev) >= 1 => T.end.converged = T.ev[Len(T.ev)].converged)
+            /\ (~T.end.converged => Len(T.ev) = T.resets)                      \* ExitOK
     /\ TLCSet(tid, Len(T.ev) + 1)
     /\ l' = l + 1 /\ UNCHANGED tid
 Spec == Init /\ [][Next \/ Finish]_vars
